@@ -173,10 +173,13 @@ private:
       const variable_t &pivot = kv.second;
       Interval res = compute_residual(cst, pivot, env);
       Interval rhs = Interval::top();
+      // whether c * rhs == res, i.e. the division res / c is exact
+      bool is_exact_division = false;
       if (!res.is_top()) {
         Interval ic =
             interval_traits::mk_interval<Interval>(c, get_bitwidth(pivot));
         rhs = res / ic;
+        is_exact_division = (rhs * ic == res);
       }
 
       if (cst.is_equality()) {
@@ -200,9 +203,12 @@ private:
       } else if (cst.is_strict_inequality()) {
         // do nothing
       } else {
-        // cst is a disequation
+        // cst is a disequation: c*pivot != res. A value can be removed
+        // from pivot only if c times that value is exactly res.
         Interval old_i = env.at(pivot);
-        Interval new_i = interval_traits::trim_interval(old_i, rhs);
+        Interval new_i = (is_exact_division
+                              ? interval_traits::trim_interval(old_i, rhs)
+                              : old_i);
         if (new_i.is_bottom()) {
           return true;
         }
